@@ -2,6 +2,7 @@
 from ..core import rng_for, rand_digits, M64, ndig
 from ..oracles import (cmd_tostr, cmd_fmt, cmd_toradix, cmd_fromstr, cmd_parsebytes, cmd_fromradix, tostr, radix_digits_le, FMT, DIG)
 
+THOROUGH_SEEDS = 8   # the thorough tier repeats its staged workload over this many derived seeds
 RULE = ('output: every radix 2..=36 (text) and 2..=256 (digit vectors) x values 0, one digit, 63/64/65 digits (big-base '
         'threshold), ~200 digits, k*radix^j, radix^k-1, radix^k and lengths chosen so the output length takes every residue '
         'of the per-radix chunk power; 40 compile-time format specs x runtime widths x signs, cross-checked against the same '
